@@ -128,6 +128,11 @@ def server_cases(tier, rng):
             for seq in (0, 1, 2):
                 raw = struct.pack("<H", ack) + b"\x01" + struct.pack("<H", seq) + b"injected"
                 cs.append(mk_s(letter + b"aaa00" + b32(raw), "domain", rng.choice([10, 16, 5]), 1, 1, 0, "stray-packet", "packet/ack%d/seq%d" % (ack, seq)))
+    # ... and from the owner's own host but another source port (owner = 2): a packet, a close, new options
+    raw = struct.pack("<H", 65535) + b"\x01" + struct.pack("<H", 1) + b"injected"
+    cs.append(mk_s(b"caaa00" + b32(raw), "domain", 10, 1, 1, 2, "stray-packet", "packet/same-host"))
+    cs.append(mk_s(b"oaaa00" + b32(bytes([255, 255, 1, 32, 32]) + struct.pack("<I", 2 ** 32 - 1)), "domain", 10, 1, 1, 2, "close", "options/close/same-host"))
+    cs.append(mk_s(b"oaaa00" + b32(bytes([255, 255, 255, 83, 82]) + struct.pack("<I", 900)), "domain", 10, 1, 1, 2, "fragsize", "options/same-host"))
     # the same message delivered many times (implementation only): what the session keeps must not grow with the repetitions
     for owner in (0, 1):
         for seq in (1, 2, 5, 100, 127, 128, 129, 40000):
@@ -362,7 +367,7 @@ def oracle(case, impl):
     out = []
     f = case["line"].split()
     owner = int(f[4])
-    if "same" in p and p[p.index("same") + 1] == "0" and owner == 0:
+    if "same" in p and p[p.index("same") + 1] == "0" and owner != 1:
         out.append(("session-disturbed", "a message from a foreign address changed an established session: " + case["line"][:200]))
     if "allocKiB" in p and int(p[p.index("allocKiB") + 1]) > ALLOC_BOUND_KIB:
         out.append(("alloc-unbounded", "handling one message allocated %s KiB: %s" % (p[p.index("allocKiB") + 1], case["line"][:200])))
